@@ -63,6 +63,9 @@ def gen_case(rng, tier, index):
     return {"fmt": fmt, "syms": syms, "dels": dels,
             "extra_def": rng.random() < 0.5, "extra_need": rng.random() < 0.5,
             "driver": rng.choice(["ctx", "ctx", "passes"]),
+            # the uses of one deleted symbol are first retargeted to a
+            # surviving symbol, in the same context
+            "retarget": rng.random() < 0.2,
             "data_only": rng.random() < 0.25}
 
 
@@ -228,14 +231,37 @@ def run_case(case):
     force = {}
     for i, f in case["dels"]:
         force[i] = f and force.get(i, True)
+    # retarget first?  (not for symbols in symbol-minus-symbol expressions:
+    # retargeting those is documented as not implemented)
+    ret = None
+    if case.get("retarget"):
+        in_addr = {i for ss in model["exprs"].values() if len(ss) > 1
+                   for i in ss}
+        cand_i = [i for i in sorted(force) if i not in in_addr]
+        cand_j = [j for j in range(n) if j not in force]
+        if cand_i and cand_j:
+            ret = (cand_i[0], cand_j[0])
+            i_, j_ = ret
+            model["exprs"] = {o: tuple(j_ if x == i_ else x for x in ss)
+                              for o, ss in model["exprs"].items()}
+            model["cfi"] = [(a, b, j_ if x == i_ else x)
+                            for a, b, x in model["cfi"]]
+            model["fwd"] = {k: (j_ if v == i_ else v)
+                            for k, v in model["fwd"].items()}
+            ctr["retarget_then_delete"] = 1
+
+    def request(rctx):
+        if ret is not None:
+            rctx.retarget_symbol_uses(syms[ret[0]], syms[ret[1]])
+        for i, f in case["dels"]:
+            rctx.delete_symbol(syms[i], force=f)
     if case.get("driver") == "passes":
         from gtirb_rewriting import Pass, PassManager
 
         class Deleter(Pass):
             def begin_module(self, module, functions, rctx):
                 if module is m:
-                    for i, f in case["dels"]:
-                        rctx.delete_symbol(syms[i], force=f)
+                    request(rctx)
         pm = PassManager()
         pm.add(Deleter())
 
@@ -247,8 +273,7 @@ def run_case(case):
         ctr["through_passmanager"] = 1
     else:
         ctx = RewritingContext(m, [])
-        for i, f in case["dels"]:
-            ctx.delete_symbol(syms[i], force=f)
+        request(ctx)
     dele = set(force)
     # expected outcome
     uses = {i: [o for o, ss in model["exprs"].items() if i in ss]
